@@ -98,3 +98,74 @@ Example C06_lifecycle_nonvacuous :
   | _ => None
   end = Some ([100; 7; 101], [9; 8])%nat.
 Proof. vm_compute. reflexivity. Qed.
+
+(* ... and with the UNINIT forms among the conversions: such a stage converts with only the mandatory added
+   fields, then writes each added field that was left uninitialised (plain data only - what the generated gate
+   C11 admits) through its mutable accessor, then goes on with any reads and writes.  Same accounting, no fault. *)
+From Truc.Proofs Require Import ChainU.
+Theorem C06_whole_life_uninit : forall ds TI rt A cap, rt_ok rt = true ->
+  forall (stages : list ustage) P vals b v,
+  layout_ok ds TI A cap P -> uchain_ok ds TI A cap P stages -> holds ds TI cap A P vals b ->
+  layout_ok ds TI A cap (ulast_data P stages) ->
+  exists bf d r dropped, uchain_run ds TI rt A cap b stages = Ok (bf, d, r) /\
+    op_drop ds TI rt A cap v (ulast_data P stages) bf = Ok (ONone, dropped) /\
+    Permutation (d ++ dropped ++ r) (map vals (filter (dr ds TI) P) ++ uentered ds TI stages).
+Proof. intros ds TI rt A cap RT. exact (uchain_then_drop ds TI rt A cap RT). Qed.
+Print Assumptions C06_whole_life_uninit.
+
+(* it contains C06_whole_life: a chain of complete forms is a chain of stages with the flag off *)
+Theorem C06_whole_life_uninit_extends : forall ds TI rt A cap stages b,
+  uchain_run ds TI rt A cap b (map (fun s => mkUStage s false (fun _ => 0%nat)) stages) = chain_run ds TI rt A cap b stages.
+Proof. exact uchain_of_chain. Qed.
+Print Assumptions C06_whole_life_uninit_extends.
+
+(* a concrete chain meeting the hypotheses: variant 0 = {a: droppable 24 bytes at 0}; variant 1 removes a and adds
+   c (droppable, reusing a's bytes) and u (plain 8 bytes at 24, allow_uninit); the conversion is the uninit form,
+   u is written afterwards, then c is overwritten, then the record is dropped *)
+Definition exu_ds : defs := [mkDatum 0 1 24 8 false 0; mkDatum 1 2 8 8 true 24; mkDatum 2 1 24 8 false 0].
+Definition exu_ti (t : nat) : tinfo := if Nat.eqb t 1 then mkTi 24 8 true else mkTi 8 8 false.
+Definition exu_stage : ustage :=
+  mkUStage (mkStage [2; 1]%nat [0%nat] [2; 1]%nat [] false (fun i => (200 + i)%nat) [LSet 2 9; LGet 1 false]%nat 1 0) true (fun _ => 55%nat).
+Example C06_whole_life_uninit_nonvacuous :
+  match op_new exu_ds exu_ti rt_fixed 8 32 0 [0%nat] (fun i => (100 + i)%nat) with
+  | Ok (ORecord r, _) =>
+      match uchain_run exu_ds exu_ti rt_fixed 8 32 r [exu_stage] with
+      | Ok (bf, d, back) =>
+          match op_drop exu_ds exu_ti rt_fixed 8 32 1 [2; 1]%nat bf with Ok (_, dropped) => Some (d, back, dropped) | _ => None end
+      | _ => None
+      end
+  | _ => None
+  end = Some ([100; 202], [], [9])%nat.
+Proof. vm_compute. reflexivity. Qed.
+
+(* ... and the hypotheses of the theorem are met by that chain *)
+Lemma exu_layout_P : layout_ok exu_ds exu_ti 8 32 [0%nat].
+Proof.
+  constructor.
+  - repeat constructor; simpl; tauto.
+  - repeat constructor; simpl; tauto.
+  - intros i [<-|[]]. vm_compute. discriminate.
+  - intros i [<-|[]]. vm_compute. repeat split; discriminate.
+  - intros i j [<-|[]] [<-|[]] Hne; congruence.
+  - repeat constructor; simpl; tauto.
+Qed.
+Lemma exu_layout_Q : layout_ok exu_ds exu_ti 8 32 [2; 1]%nat.
+Proof.
+  constructor.
+  - repeat constructor; simpl; intuition discriminate.
+  - repeat constructor; simpl; intuition discriminate.
+  - intros i [<-|[<-|[]]]; vm_compute; discriminate.
+  - intros i [<-|[<-|[]]]; vm_compute; repeat split; discriminate.
+  - intros i j [<-|[<-|[]]] [<-|[<-|[]]] Hne _ _; try congruence; vm_compute; [left|right]; discriminate.
+  - repeat constructor; simpl; intuition discriminate.
+Qed.
+Example C06_whole_life_uninit_hypotheses :
+  layout_ok exu_ds exu_ti 8 32 [0%nat] /\ uchain_ok exu_ds exu_ti 8 32 [0%nat] [exu_stage] /\
+  layout_ok exu_ds exu_ti 8 32 (ulast_data [0%nat] [exu_stage]).
+Proof.
+  split; [exact exu_layout_P|]. split; [|exact exu_layout_Q].
+  cbn [uchain_ok exu_stage u_s u_uninit s_Q s_minus s_plus s_carried s_ops].
+  split; [exact exu_layout_Q|]. split; [apply Permutation_refl|]. split; [apply Permutation_refl|].
+  split; [repeat constructor; simpl; tauto|]. split; [|exact I].
+  intros _ i [<-|[<-|[]]]; vm_compute; congruence.
+Qed.
